@@ -74,6 +74,7 @@ class Lin:
         self.IN = {}
         self.rets = []
         self.groups = list(groups)
+        self.auto_pairs = False
         self.pairs = []        # [(reg a, reg b)]: registers that move in lockstep (a - b is joined as an invariant)
         self.watch = None      # set of cell keys whose stored values are recorded in self.watched
         self.watched = {}      # [(key of next, key of avail, key of total or None)]: counters that are joined relationally
@@ -205,19 +206,45 @@ class Lin:
         ch = False
         out = {'r': {}, 'm': {}}
         rdone = set()
-        for ra, rb in self.pairs:
+        masters = set()
+        for pr in self.pairs:
+            ra, rb, sg = pr if len(pr) == 3 else (pr[0], pr[1], 1)      # invariant ra - sg * rb; rb is the master and may serve several ra
+            if ra in rdone or (rb in rdone and rb not in masters):
+                continue
             xa, ya = a['r'].get(ra, {ra + '@entry': 1}), a['r'].get(rb, {rb + '@entry': 1})
             xb, yb = b['r'].get(ra, {ra + '@entry': 1}), b['r'].get(rb, {rb + '@entry': 1})
             if canon(xa) == canon(xb) and canon(ya) == canon(yb):
                 continue
-            if canon(add(xa, ya, -1)) != canon(add(xb, yb, -1)):
+            if canon(ya) == canon(yb) or canon(add(xa, ya, -sg)) != canon(add(xb, yb, -sg)):
                 continue
             J = {('J', addr, rb): 1}
             out['r'][rb] = J
-            out['r'][ra] = add(J, add(xa, ya, -1))
+            out['r'][ra] = add(scale(J, sg), add(xa, ya, -sg))
             rdone |= {ra, rb}
+            masters.add(rb)
             if canon(out['r'][rb]) != canon(ya) or canon(out['r'][ra]) != canon(xa):
                 ch = True
+        if self.auto_pairs:
+            # greedy partition of the registers that differ into lockstep classes: r - sg * master is the same on both sides
+            def g(st, r):
+                return st['r'].get(r, {r + '@entry': 1})
+            diff = sorted(r for r in (set(a['r']) | set(b['r'])) - rdone if canon(g(a, r)) != canon(g(b, r)))
+            while diff:
+                m = diff.pop(0)
+                J = {('J', addr, m): 1}
+                out['r'][m] = J
+                rdone.add(m)
+                if canon(J) != canon(g(a, m)):
+                    ch = True
+                for r in list(diff):
+                    for sg in (1, -1):
+                        if canon(add(g(a, r), g(a, m), -sg)) == canon(add(g(b, r), g(b, m), -sg)):
+                            out['r'][r] = add(scale(J, sg), add(g(a, r), g(a, m), -sg))
+                            rdone.add(r)
+                            diff.remove(r)
+                            if canon(out['r'][r]) != canon(g(a, r)):
+                                ch = True
+                            break
         for r in (set(a['r']) | set(b['r'])) - rdone:
             x = a['r'].get(r, {r + '@entry': 1})
             y = b['r'].get(r, {r + '@entry': 1})
@@ -271,6 +298,11 @@ class Lin:
             for s_ in u.succ(f, a):
                 preds.setdefault(s_, []).append(a)
         OUT = {}
+        heads = {}
+        for a in f.addrs:
+            i = u.insns[a]
+            if (is_cond_jump(i.mn) or i.mn == 'jmp') and i.target is not None and i.target <= a and i.target in f.aset:
+                heads[i.target] = max(heads.get(i.target, a), a)
         self.IN = {f.entry: self.initial()}
         work = [f.entry]
         n = 0
@@ -303,10 +335,53 @@ class Lin:
             for s_ in u.succ(f, a):
                 if s_ not in work:
                     work.append(s_)
+        self.resolve_self_atoms(preds, OUT)
         for a in f.addrs:
             if u.insns[a].mn == 'ret' and a in self.IN:
                 self.rets.append((u.insns[a], self.IN[a]))
         return self
+
+    def resolve_self_atoms(self, preds, OUT):
+        """at the fixpoint, a join atom J@(a, r) all of whose incoming values are either one and the same form x or the atom itself (a back edge that leaves r
+        alone - it was only joined with a value that has stopped arriving) IS x, by induction over the arrivals at a: substitute it everywhere.  This is what an
+        iteration strategy that stabilises inner loops from scratch would have computed; done as a post-pass it cannot disturb termination."""
+        def subst(form, atom, x):
+            c = form.get(atom)
+            if not c:
+                return form
+            out = dict(form)
+            del out[atom]
+            return add(out, x, c)
+        for _ in range(200):
+            todo = []
+            for a, st in self.IN.items():
+                ps = [OUT[p_] for p_ in preds.get(a, []) if p_ in OUT]
+                if len(ps) < 2:
+                    continue
+                for kind in ('r', 'm'):
+                    for r, v in st[kind].items():
+                        atom = ('J', a, r)
+                        if v != {atom: 1}:
+                            continue
+                        vals = [s_[kind].get(r, {r + '@entry': 1} if kind == 'r' else {('M', r): 1}) for s_ in ps]
+                        others = [x for x in vals if x != {atom: 1}]
+                        if others and len(others) < len(vals) and all(canon(o) == canon(others[0]) for o in others) and atom not in others[0]:
+                            todo.append((atom, others[0]))
+            if not todo:
+                break
+            while todo:
+                atom, x = todo.pop(0)
+                if atom in x:
+                    continue
+                todo = [(a2, subst(x2, atom, x)) for a2, x2 in todo]
+                for states in (self.IN, OUT):
+                    for st in states.values():
+                        for kind in ('r', 'm'):
+                            for r in list(st[kind]):
+                                if atom in st[kind][r]:
+                                    st[kind][r] = subst(st[kind][r], atom, x)
+                for k, lst in self.watched.items():
+                    self.watched[k] = [(i, subst(v, atom, x)) for i, v in lst]
 
     def field(self, st, base_reg, off):
         """value of the cell [base_reg@entry + off] in state st"""
